@@ -580,12 +580,23 @@ def fam_sub(mode, names, cross, dict_form, mstr, only_subsets=None):
           pyield  the same with yield: true
           pnon0 / pyield0   parent has no option of that name
           pyieldT yield: true, parent's option of that name has another type"""
+    variants = []
     for kind in names:
+        variants.append((kind, None, None))
+        if mode == 'pyieldT':
+            # every other parent type as well (one type is a subclass of another in the implementation: feature < combo),
+            # on the subsets that decide whether the parent's value is taken at all
+            for pk2 in PK:
+                if pk2 not in (kind, OTHER_KIND[kind]):
+                    variants.append((kind, pk2, [[], ['P'], ['C'], ['S'], ['CS'], ['P', 'S']]))
+    for kind, pk_override, sub_override in variants:
         k = ALLK[kind]
         name = kind if mode == 'bsub' else ALIAS_PREFIX[mode] + kind[1:]    # distinct option names per mode (tier B merges modes)
+        if pk_override:
+            name += '_' + pk_override[1:]
         n, nd, na = assignments(k, 10)
         vals = distinct_vals(k)
-        for sub in (only_subsets if only_subsets is not None else subsets(SUB_ORDER)):
+        for sub in (sub_override if sub_override is not None else only_subsets if only_subsets is not None else subsets(SUB_ORDER)):
             unprefixed = [s for s in sub if s in ('P', 'M', 'C')]
             if mode in ('pnon0', 'pyield0') and unprefixed:
                 # `opt=value` addressing an option that only the subproject declares: docs speak of built-in options
@@ -615,7 +626,7 @@ def fam_sub(mode, names, cross, dict_form, mstr, only_subsets=None):
                     if mode in ('pnon', 'pyield'):
                         pk = kind
                     elif mode == 'pyieldT':
-                        pk = OTHER_KIND[kind]
+                        pk = pk_override or OTHER_KIND[kind]
                     pvals = distinct_vals(PK[pk]) if pk else None
                     pval = None
                     if pk:
@@ -1043,6 +1054,14 @@ def classify(case, okey, e, got):
     if fam == 'prefix-subdecoy' and where == 'top2' and name in SPECIAL_DIRS and \
             got == ref_dir_default(name, case['meta']['decoy_prefix']):
         return 'C07:prefix:subproject-default-prefix-resets-parent-directory-options'
+    if where == 'sub' and name.startswith(ALIAS_PREFIX['pyieldT']):
+        # yield: true, parent option of the same name declared with another kind
+        tops = {d[0]: d for d in scn.get('top_decl', [])}
+        subs = {d[0]: d for d in scn.get('sub_decl', [])}
+        if name in tops and name in subs:
+            pk, sk = PK[tops[name][1]], PK[subs[name][1]]
+            if pk['type'] == sk['type'] and not ref_valid_kind(sk, got):
+                return 'C07:yield:same-type-other-choices:parent-value-outside-own-choices'
     k = kind_of(name)
     return 'C07:value:%s:%s:%s' % (fam, where, (k['type'] if k else name))
 
